@@ -258,6 +258,28 @@ add("rec-avoid-second", "%start X\n%avoid_insert 'q'\n%%\nX: 'p' 'q' | 'r' 's' '
 add("rec-avoid-second2", "%start X\n%avoid_insert 'q' 'k'\n%%\nX: 'm' 'p' 'q' 'z' | 'm' 'r' 's' 'w' 'z' | 'm' 'k' 'j' 'z';\n", tags=["rec"],
     inputs=["m z", "m", "z", "m w z", "m q z", "m j z", "m p z"], costs=[1, 1, 2, 1, 1, 1, 1, 2, 1, 1])
 
+# ---- shapes found by the second round of seeded changes ----
+# an unproductive rule (B) behind another rule in one alternative, a second alternative in the same state
+add("unproductive-alt", "%start S\n%%\nS: A B | D;\nA: 'a';\nB: B 'b';\nD: 'd';\n", tags=["lr1"], inputs=["d", "a", "a b", "d d", ""])
+add("unproductive-alt2", "%start S\n%%\nS: 'x' U 'y' | 'x' 'z' | T;\nU: U 'u' | 'v' U;\nT: 't' T | 't';\n", tags=["lr1"], inputs=["x z", "t t", "x y", "x v y", "t"])
+# LR(1) but not LALR(1) with THREE items in the cores that must stay apart (both declaration orders)
+add("nonlalr3", "%start S\n%%\nS: 'a' A 'd' | 'a' B 'e' | 'a' C 'f' | 'b' A 'e' | 'b' B 'd' | 'b' C 'g';\nC: 'c';\nA: 'c';\nB: 'c';\n", tags=["lr1", "nonlalr"],
+    inputs=["a c d", "a c e", "a c f", "b c e", "b c d", "b c g", "a c g", "b c f"])
+add("nonlalr3b", "%start S\n%%\nS: 'a' A 'd' | 'a' B 'e' | 'a' C 'f' | 'b' A 'e' | 'b' B 'd' | 'b' C 'g';\nA: 'c';\nB: 'c';\nC: 'c';\n", tags=["lr1", "nonlalr"],
+    inputs=["a c d", "a c e", "a c f", "b c e", "b c d", "b c g", "a c g", "b c f"])
+add("nonlalr4", "%start S\n%%\nS: 'a' A 'd' | 'a' B 'e' | 'a' C 'f' | 'a' D 'g' | 'b' A 'e' | 'b' B 'd' | 'b' D 'f' | 'b' C 'g';\nD: 'c';\nC: 'c';\nA: 'c';\nB: 'c';\n",
+    tags=["lr1", "nonlalr"], inputs=["a c d", "a c e", "b c e", "b c d", "b c f", "a c g", "b c g"])
+# FIRST sets that need three or more sweeps, with an already-nullable chain rule visited later in the sweep
+add("first-sweeps", "%start S\n%%\nS: A R Q;\nA: 'a';\nR: P 'r' | 'k';\nP: Y 'p';\nX: ;\nQ: X;\nY: 'y';\n", tags=["lr1"],
+    inputs=["a y p r", "a k", "a y y", "a y p", "a r"])
+add("first-sweeps2", "%start S\n%%\nD: 'd';\nS: D A 'x' | D R A;\nA: B;\nB: Cc;\nCc: E;\nE: ;\nR: P 'r';\nP: Y 'p';\nY: Z 'y';\nZ: 'z';\n", tags=["lr1"],
+    inputs=["d x", "d z y p r", "d z", "d z y p", "d"])
+# more than TRY_PARSE_AT_MOST lexemes after the error: ranking must count from the error position
+add("rec-long-tail", "%start E\n%%\nE: E '+' 'n' | 'n';\n", tags=["rec"],
+    inputs=["n n" + " + n" * 200, "n + + n" + " + n" * 140, "n n + n"])
+add("rec-long-tail2", "%start L\n%%\nL: L ',' I | I;\nI: 'x' | '(' L ')';\n", tags=["rec"],
+    inputs=["x x" + " , x" * 150, "( x x" + " , x" * 130 + " )", "x , , x"])
+
 
 def select(tags=None, exclude=()):
     out = []
